@@ -10,6 +10,8 @@ def run(report, tier):
     # finite quota in a plain FunctorPool (no replacement): two workers, quota 1, two chunks
     plan.append((Config("PQ", kind="functor", quota=1, workers=2, calls=[("imap", "list", 2, 1)]), b + 1, 0, None))
     plan.append((Config("PQ2", kind="functor", quota=2, workers=1, calls=[("imap_unordered", "list", 2, 1)]), b + 1, 0, None))
+    # the boundary quota 0 next to an unlimited worker: the zero-quota worker begins, ends, and touches no chunk
+    plan.append((Config("PQ0", kind="functor", quota=[0, None], workers=2, calls=[("imap", "list", 2, 1)]), b, 0, None))
     # finite quota with a bounded results queue: the worker's "results queue full" path
     plan.append((Config("QF", kind="factory", quota=1, workers=2, rq=1, calls=[("imap_unordered", "list", 3, 1)],
                         required=[r"except queue\.Full"]), 0 if tier == "quick" else 1, 0, None))
